@@ -557,9 +557,10 @@ def open_order(ctx):
         (r"Meta::validate", None, [("bad_unless", "meta_read"), ("set", "validated")]),
         (r"Tree::open", None, [("bad_unless", "validated")]),
         (r"bitbox::DB::open|DB::open", None, [("bad_unless", "validated")]),
+        (r"Rollback::read", None, [("bad_unless", "validated")]),
     ]
     ops, hits = _events(cfg, table)
-    _require(table[3:], hits[3:], "Store::open")   # Tree::open / DB::open anchor
+    _require(table[3:5], hits[3:5], "Store::open")   # Tree::open / DB::open anchor
     flags = ["locked", "meta_read", "validated"]
     qs = [PQuery("Store::open: lock -> Meta::read -> validate -> Tree::open / DB::open", cfg, ops, flags, {}, key="Store::open:order"),
           PQuery("Store::open: DB::open is reachable", cfg, {bb: [("bad", None)] for bb in hits[4]}, [], {}, expect="sat")]
